@@ -79,6 +79,8 @@ pub struct BasicOpts {
     pub directed_max: u32,
     /// probability x/1000 that keep-alive is configured on a side
     pub keepalive_rate: u32,
+    /// idle timeouts to draw from when `idle_off` is false (per side)
+    pub idle_choices: Vec<Option<u64>>,
 }
 
 impl Default for BasicOpts {
@@ -117,6 +119,7 @@ impl Default for BasicOpts {
             directed_k: 0,
             directed_max: 2,
             keepalive_rate: 0,
+            idle_choices: vec![Some(30_000)],
         }
     }
 }
@@ -160,6 +163,9 @@ impl Basic {
         if opts.idle_off {
             sk.idle_ms = None;
             ck.idle_ms = None;
+        } else {
+            sk.idle_ms = *w.ch.pick("basic.idle_s", &opts.idle_choices);
+            ck.idle_ms = *w.ch.pick("basic.idle_c", &opts.idle_choices);
         }
         for k in [&mut sk, &mut ck] {
             if w.ch.chance("basic.pad_to_mtu", opts.pad_rate, 1000) {
